@@ -8,7 +8,7 @@ EXPLANATION = (
     "_receive_impl, puts the decode result, and a second put is reachable only through another decode call. [Q-FIFO] the queue is an unbounded "
     "asyncio.Queue created once; one consumer task started once in __init__; queue.get only there; the callback is awaited inline (no task per "
     "message) on the message just taken, inside try/except Exception (not BaseException/CancelledError) without re-raise; task_done on every path. "
-    "[RX-FRAME] readexactly(13) for the fixed EByte framing, line reads for text formats. [SER-STATE] the serial path writes only its buffer, "
+    "[RX-RAISE] a connection-ending raise in a _receive_impl depends only on emptiness of the raw read (or the literal busy banner), never on content. The callback's except clause cannot fail itself (logging of plain names only). [BUF-PROGRESS] each scan iteration removes the buffer exactly through start + packet length (no packet seen twice). [RX-FRAME] readexactly(13) for the fixed EByte framing, line reads for text formats. [SER-STATE] the serial path writes only its buffer, "
     "appends before scanning and leaves the scan loop only on need-more-data conditions, so delivery depends on the concatenation of reads, not on "
     "their boundaries. UNDECIDED: equality with the decoder's output on arbitrary streams (needs exploration), slow callbacks."
 )
@@ -16,9 +16,14 @@ ASSUMPTIONS = ["CPython ast parser", "asyncio.Queue is FIFO", "StreamReader.read
 
 def run(chk, program, tier):
     for r, t in (('RX-CONTAIN', 'decode errors contained per packet'), ('RX-ONCE', 'one put per decoded message'), ('Q-FIFO', 'single FIFO consumer, inline shielded callback'),
-                 ('RX-FRAME', 'framing constants'), ('SER-STATE', 'serial path state = buffer only')):
+                 ('RX-FRAME', 'framing constants'), ('RX-RAISE', 'only end of stream ends the connection'), ('BUF-PROGRESS', 'each processed packet is removed exactly once'), ('SER-STATE', 'serial path state = buffer only')):
         chk.rule(r, t)
     K.rx_rules(chk, program)
     K.q_fifo(chk, program)
     K.rx_frame(chk, program)
     K.ser_state(chk, program)
+    K.rx_raise(chk, program)
+    K.handler_cannot_raise(chk, program)
+    # consumption of the serial buffer: same clause as C20 BUF-PROGRESS (every iteration removes exactly through start + P)
+    from .c16 import _Sub
+    K.buf_rules(_Sub(chk, {'BUF-PROGRESS'}), program)
